@@ -420,6 +420,57 @@ def run_python(case, behaviour):
             "triggers": rec.triggers, "exc": rec.exc}
 
 
+def run_shared_class():
+    """ONE protocol class used under both wrappers in the same process, in both orders. The
+    environment belongs to the provider instance, not to the protocol class: an extension built on the
+    interop-wrapped instance is a no-op, the same extension on the python-wrapped instance works."""
+    from gradysim.simulator.handler.communication import CommunicationHandler
+    from gradysim.simulator.handler.timer import TimerHandler
+    from gradysim.simulator.simulation import SimulationBuilder, SimulationConfiguration
+    out = {}
+    for order in ("python-first", "interop-first"):
+        class K(IProtocol):
+            def initialize(self):
+                self.ctl = CommunicationController(self)
+                self.ctl.set_transmission_range(25.0)
+                self.cam = CameraHardware(self, CameraConfiguration(20.0, 30.0, 180.0, 0.0))
+                self.seen = self.cam.take_picture()
+
+            def handle_timer(self, timer): pass
+            def handle_packet(self, message): pass
+            def handle_telemetry(self, telemetry): pass
+            def finish(self): pass
+
+        def python_leg():
+            comm = CommunicationHandler()
+            b = SimulationBuilder(SimulationConfiguration(max_iterations=1, execution_logging=False))
+            b.add_handler(comm)
+            b.add_handler(TimerHandler())
+            b.add_node(K, (0.0, 0.0, 0.0))
+            b.add_node(K, (1.0, 0.0, 0.0))
+            sim = b.build()
+            quiet_logging()
+            sim.step_simulation()
+            return {"range0": comm.transmission_ranges.get(0)}
+
+        def interop_leg():
+            enc = InteropEncapsulator()
+            enc.encapsulate(K)
+            enc.set_id(0)
+            ret = enc.initialize()
+            return {"consequences": len(ret), "seen": enc.protocol.seen}
+
+        res = {}
+        for leg in (("python", python_leg), ("interop", interop_leg)) if order == "python-first" else \
+                (("interop", interop_leg), ("python", python_leg)):
+            try:
+                res[leg[0]] = leg[1]()
+            except Exception as e:
+                res[leg[0]] = {"raised": type(e).__name__}
+        out[order] = res
+    return out
+
+
 # ---------------------------------------------------------------------------------- the property, read directly
 ROUTE = {"setTimer": "timer", "cancelTimer": "timer", "send": "communication", "broadcast": "communication",
          "goto": "mobility", "gotoGeo": "mobility", "setSpeed": "mobility"}
@@ -495,7 +546,8 @@ class C14(Check):
                 steps.append([t + r.choice([0, 1024]), "finish", ""])
             prof = {"pGuarded": 0.25 if i % 3 == 2 else 0.0}
             yield {"kind": "wrappers", "seed": s, "id": r.choice([0, 1, 3, 17]), "steps": steps, "profile": prof,
-                   "extRange": fbits(r.choice([25.0, 0.0, -3.0, 60.0])), "label": f"gen/{seed}/{i}"}
+                   "extRange": fbits(r.choice([25.0, 0.0, -3.0, 60.0])), "label": f"gen/{seed}/{i}",
+                   "sharedClass": i % 40 == 3}
 
     def behaviour(self, case):
         if case.get("frozen"):
@@ -512,8 +564,9 @@ class C14(Check):
             case_py = dict(case)
             case_py["table"] = io["table"]
             py = run_python(case_py, self.behaviour(case))
+            shared = run_shared_class() if case.get("sharedClass") else None
         quiet_logging()
-        return {"interop": io, "python": py, "table": py["table"], "ctypes": ctype_codes()}
+        return {"interop": io, "python": py, "table": py["table"], "ctypes": ctype_codes(), "shared": shared}
 
     def model_input(self, case, impl):
         return {"kind": "interop", "id": case["id"], "steps": case["steps"], "table": impl["table"],
@@ -554,6 +607,14 @@ class C14(Check):
         io, py = impl["interop"], impl["python"]
         cbs = io["callbacks"]
         steps = case["steps"]
+        for order, res in (impl.get("shared") or {}).items():
+            i, p = res.get("interop", {}), res.get("python", {})
+            if "raised" in i or i.get("consequences") != 0 or i.get("seen") != []:
+                fails.append(("C14:extension-not-noop", f"one protocol class under both wrappers ({order}): extensions on "
+                              f"the interop-wrapped instance gave {i} instead of being no-ops"))
+            if "raised" in p or p.get("range0") != 25.0:
+                fails.append(("C14:extension-disabled-in-python", f"one protocol class under both wrappers ({order}): the "
+                              f"communication controller on the python-wrapped instance gave {p}; expected range 25.0"))
         # protocol-visible inputs: id and time, identical in both wrappers
         want = [[case["id"], s[1], s[2], s[0]] for s in steps]
         for name, got in (("interop", io["triggers"]), ("python", py["triggers"])):
